@@ -1,4 +1,7 @@
+import Srctools.Proofs.C16
 import Srctools.Proofs.C16Bin
+import Srctools.Proofs.C16Lazy
+import Srctools.Gen.Tok
 import Srctools.Gen.Fgdw
 /-!
 # C16 — FGD definitions survive text export, binary database, and lazy loading
@@ -6,9 +9,152 @@ import Srctools.Gen.Fgdw
 Property theorems only (statements about the models in Model/C16*.lean; proofs in Proofs/C16*.lean).
 -/
 namespace C16
-open C16.Bin
+open Tok
+
+/-! ## (i) long strings: `_write_longstring` and the reader
+
+`cfgOK cfg` = the escape-pair guard is present, `LIMIT ≥ 2`, the `\n`-rule threshold `≥ 1`;
+`fgdTablesOK T` = `escOK T` (C02) and blank, `+`, LF are not operator characters. Both are decidable
+and checked on the current source by `C16_gen_ok`. -/
+
+/-- OBLIGATION on the current source: the extracted shape of `_write_longstring` has the guard against
+cutting an escape pair and writes `""` for an empty text; the tokenizer tables are well formed;
+`FGD.parse_file` tokenizes with escapes and the `+` / `:` operators. -/
+theorem C16_gen_ok :
+    cfgOK Gen.Fgdw.longCfg = true ∧ Gen.Fgdw.longCfg.emptyQuotes = true ∧
+    fgdTablesOK Gen.Tok.tables = true ∧
+    Gen.Fgdw.parseOpts.allowEscapes = true ∧ Gen.Fgdw.parseOpts.plusOperator = true ∧
+    Gen.Fgdw.parseOpts.colonOperator = true ∧ Gen.Fgdw.parseOpts = fgdOpts := by
+  decide
+
+/-- **Long strings, token level.** For EVERY string `s` (and every blank indent) the text written by
+`_write_longstring(extended=True)` is, for some split `ps` of `s` into consecutive pieces
+(`ps.flatten = s`), exactly the tokens `STRING p₁, PLUS, NEWLINE, STRING p₂, …, STRING pₖ, EOF` with no
+tokenizer error — followed by end of input or by a line feed.  Every piece, escaped, has at most `LIMIT`
+characters. -/
+theorem C16_longstring_tokens (T : Tables) (hT : fgdTablesOK T = true) (cfg : LongCfg)
+    (hc : cfgOK cfg = true) (o : Opts) (hoe : o.allowEscapes = true) (hop : o.plusOperator = true)
+    (fold : Char → List Char) (indent : List Char) (hind : ∀ c ∈ indent, c = ' ' ∨ c = '\t')
+    (s : List Char) (hs : s ≠ [] ∨ cfg.emptyQuotes = true) :
+    ∃ ps : List (List Char), ps.flatten = s ∧ ps ≠ [] ∧
+      (∀ p ∈ ps, (escapeText T false p).length ≤ cfg.limit) ∧
+      run T o fold (writeLongString cfg T true indent s)
+        = { toks := longObs 1 ps ++ [⟨0, [], ps.length⟩], err := none } ∧
+      run T o fold (writeLongString cfg T true indent s ++ ['\n'])
+        = { toks := longObs 1 ps ++ [⟨2, ['\n'], ps.length + 1⟩, ⟨0, [], ps.length + 1⟩], err := none } := by
+  have K := tokFacts hT
+  obtain ⟨ps, hflat, hne, hlim, _, hw⟩ := writeLongString_pieces (escFacts K.esc) cfg hc indent s hs
+  have := run_pieces K o hoe hop fold indent hind ps hne
+  exact ⟨ps, hflat, hne, hlim, by rw [hw]; exact this.1, by rw [hw]; exact this.2⟩
+
+/-- **Long strings (the property).** Tokenizing what `_write_longstring` wrote gives no error, only
+STRING / PLUS / NEWLINE / EOF tokens, and the concatenation of the STRING tokens is the original
+string — for every string. In particular no split point falls between a backslash and the character
+it escapes. -/
+theorem C16_longstring (T : Tables) (hT : fgdTablesOK T = true) (cfg : LongCfg)
+    (hc : cfgOK cfg = true) (o : Opts) (hoe : o.allowEscapes = true) (hop : o.plusOperator = true)
+    (fold : Char → List Char) (indent : List Char) (hind : ∀ c ∈ indent, c = ' ' ∨ c = '\t')
+    (s : List Char) (hs : s ≠ [] ∨ cfg.emptyQuotes = true) :
+    (run T o fold (writeLongString cfg T true indent s)).err = none ∧
+    concatStrings (run T o fold (writeLongString cfg T true indent s)).toks = s := by
+  obtain ⟨ps, hflat, _, _, hr, _⟩ := C16_longstring_tokens T hT cfg hc o hoe hop fold indent hind s hs
+  rw [hr]
+  refine ⟨rfl, ?_⟩
+  simp only [concatStrings_append, concatStrings_longObs, hflat]
+  simp [concatStrings]
+
+/-- **Reader.** `_read_colon_list` (after a colon) reads the written text, followed by the end of the
+line, back as exactly the one string `s`, leaving the NEWLINE for its caller. -/
+theorem C16_longstring_read (T : Tables) (hT : fgdTablesOK T = true) (cfg : LongCfg)
+    (hc : cfgOK cfg = true) (o : Opts) (hoe : o.allowEscapes = true) (hop : o.plusOperator = true)
+    (fold : Char → List Char) (indent : List Char) (hind : ∀ c ∈ indent, c = ' ' ∨ c = '\t')
+    (s : List Char) (hs : s ≠ [] ∨ cfg.emptyQuotes = true) :
+    let tks := tksOf (run T o fold (writeLongString cfg T true indent s ++ ['\n']))
+    readColonList (tks.length + 1) tks [] true = .ok ([s], [(.newline, ['\n']), (.eof, [])]) := by
+  obtain ⟨ps, hflat, hne, _, _, hr⟩ := C16_longstring_tokens T hT cfg hc o hoe hop fold indent hind s hs
+  intro tks
+  have htk : tks = (.string, ps.head hne) :: plusChain ps.tail ++ [(.newline, ['\n']), (.eof, [])] := by
+    show tksOf _ = _
+    rw [hr]
+    cases ps with
+    | nil => exact absurd rfl hne
+    | cons p ps' =>
+      rw [tksOf_longObs]
+      simp [tksOf, Kind.ofCode]
+  cases ps with
+  | nil => exact absurd rfl hne
+  | cons p ps' =>
+    simp only [List.head_cons, List.tail_cons] at htk
+    rw [htk]
+    simp only [List.cons_append, List.length_cons]
+    rw [readColonList]
+    simp only [Bool.not_true, Bool.false_eq_true, if_false, List.nil_append]
+    have := readColonList_chain ps' ((plusChain ps' ++ [(Kind.newline, ['\n']), (Kind.eof, [])]).length + 1)
+      p [(.newline, ['\n']), (.eof, [])]
+      (by
+        have := plusChain_length ps'
+        simp only [List.length_append, List.length_cons, List.length_nil]; omega)
+      (by intro f; simp [readColonList])
+    rw [this]
+    simp [← hflat]
+
+/-- Every quoted piece that is written has at most `LIMIT` characters between its quotes. -/
+theorem C16_longstring_limit (T : Tables) (hT : fgdTablesOK T = true) (cfg : LongCfg)
+    (hc : cfgOK cfg = true) (s : List Char) :
+    ∀ sec ∈ longSections cfg T true s, sec.length ≤ cfg.limit := by
+  have F := escFacts (tokFacts hT).esc
+  obtain ⟨_, _, _, hlim, _, _⟩ :=
+    sections_spec F false cfg hc ((escapeText T false s).length + 1) s true (by omega)
+  intro sec hsec
+  apply hlim
+  simpa [longSections, fgdEscape] using hsec
+
+/-- The law at the shape, tables and tokenizer options of the CURRENT source. -/
+theorem C16_longstring_current (fold : Char → List Char) (indent : List Char)
+    (hind : ∀ c ∈ indent, c = ' ' ∨ c = '\t') (s : List Char) :
+    (run Gen.Tok.tables Gen.Fgdw.parseOpts fold
+        (writeLongString Gen.Fgdw.longCfg Gen.Tok.tables true indent s)).err = none ∧
+    concatStrings (run Gen.Tok.tables Gen.Fgdw.parseOpts fold
+        (writeLongString Gen.Fgdw.longCfg Gen.Tok.tables true indent s)).toks = s ∧
+    (let tks := tksOf (run Gen.Tok.tables Gen.Fgdw.parseOpts fold
+        (writeLongString Gen.Fgdw.longCfg Gen.Tok.tables true indent s ++ ['\n']))
+     readColonList (tks.length + 1) tks [] true = .ok ([s], [(.newline, ['\n']), (.eof, [])])) := by
+  obtain ⟨h1, h2, h3, h4, h5, _, _⟩ := C16_gen_ok
+  have a := C16_longstring _ h3 _ h1 _ h4 h5 fold indent hind s (Or.inr h2)
+  exact ⟨a.1, a.2, C16_longstring_read _ h3 _ h1 _ h4 h5 fold indent hind s (Or.inr h2)⟩
+
+/-- The code as it was (no guard at the hard cut): the law is FALSE. With `LIMIT = 4` the string
+`aaa"bb` is written as `"aaa\" +⏎"\"bb"` whose first quoted piece swallows the separator. -/
+theorem C16_longstring_unfixed_small :
+    concatStrings (run Gen.Tok.tables fgdOpts (fun c => [c])
+      (writeLongString { limit := 4, small := 1, backoff := false, emptyQuotes := true } Gen.Tok.tables true ['\t']
+        ['a', 'a', 'a', '"', 'b', 'b'])).toks ≠ ['a', 'a', 'a', '"', 'b', 'b'] := by
+  decide +kernel
+
+/-- The code as it was with the real constants (`LIMIT = 1000`): the witness of the defect,
+`'a'*999 + '"' + 'b'*500`, is not read back. -/
+theorem C16_longstring_unfixed :
+    concatStrings (run Gen.Tok.tables fgdOpts (fun c => [c])
+      (writeLongString { limit := 1000, small := 128, backoff := false, emptyQuotes := true } Gen.Tok.tables true ['\t']
+        (List.replicate 999 'a' ++ '"' :: List.replicate 500 'b'))).toks
+      ≠ List.replicate 999 'a' ++ '"' :: List.replicate 500 'b' := by
+  decide +kernel
+
+/-- The code as it was, an empty display name: nothing is written, so `_read_colon_list` (after the colon
+of `model(string) : `) continues on the next line and returns the NAME of the next keyvalue. -/
+theorem C16_empty_unfixed :
+    writeLongString { limit := 1000, small := 128, backoff := true, emptyQuotes := false } Gen.Tok.tables true ['\t'] [] = [] ∧
+    (readColonList 100 (tksOf (run Gen.Tok.tables fgdOpts (fun c => [c])
+        ['\n', '\t', 's', 'k', 'i', 'n', '(', 'i', 'n', 't', ')', ' ', ':', ' ', '"', 'S', 'k', 'i', 'n', '"', '\n'])) [] true).toOption =
+       some ([['s', 'k', 'i', 'n']], [(.parenArgs, ['i', 'n', 't']), (.colon, [':']), (.string, ['S', 'k', 'i', 'n']),
+                              (.newline, ['\n']), (.eof, [])]) ∧
+    writeLongString Gen.Fgdw.longCfg Gen.Tok.tables true ['\t'] [] = ['"', '"'] := by
+  decide +kernel
 
 /-! ## (ii) binary database: string dictionary and records -/
+
+section BinRecords
+open C16.Bin
 
 /-- OBLIGATION on the current source: the index tables of `_engine_db.py` are usable as a code:
 every `ValueTypes` / `FileType` member has a position, positions fit in 7 bits (bit 7 carries the
@@ -66,5 +212,84 @@ theorem C16_ent_current {d : StrDict} (hd : d.WF) {e : Ent} (he : e.Ok Gen.Fgdw.
 
 /-- Non-vacuity: a small dictionary is well formed and an entity with every section round-trips. -/
 example : exDict.WF := exDict_wf
+
+end BinRecords
+
+/-! ## (iii) the lazily parsed database
+
+`Lazy.WF S`: class names are unique over all blocks, CBaseEntity is not stored in a block, every base
+named in a block exists in some block.  `s₀ = initState S p` is the state `unserialise` returns;
+`qs.foldl (getEnt S) s₀` the state after the `get_ent` calls `qs` (in that order); `loadAll` is
+`get_fgd`.  `slot n` is `ent_map[n]`: the entity OBJECT with its resolved bases (an object is its
+class name: each `ent_map` entry is replaced by an entity exactly once). -/
+section LazyDB
+open C16.Lazy
+variable {S : Static} (wf : WF S) (p : Nat)
+include wf
+
+/-- **Lazy = eager (the property).** For every list of queries on a fresh database, every queried
+class — known, unknown or CBaseEntity — has in `ent_map` exactly the value the full load gives it. -/
+theorem C16_lazy (qs : List Name) {q : Name} (hq : q ∈ qs) :
+    (qs.foldl (getEnt S) (initState S p)).slot q = (loadAll S (initState S p)).slot q :=
+  lazy_eq_loadAll wf p qs hq
+
+/-- … and the same for every class reachable from a queried class through `bases` (the object graph
+handed out is the one of the full load, never a half-resolved entity). -/
+theorem C16_lazy_deep (qs : List Name) {q n : Name} (hq : q ∈ qs) (hn : Reach S q n) :
+    (qs.foldl (getEnt S) (initState S p)).slot n = (loadAll S (initState S p)).slot n :=
+  lazy_eq_loadAll_reach wf p qs hq hn
+
+/-- What the value is: the payload read from the block with all bases resolved to objects
+(`CBaseEntity` when the file names none), and the blocks of those bases are parsed too. -/
+theorem C16_lazy_value (qs : List Name) {q : Name} (hq : q ∈ qs) {i : Nat} {r : RawEnt}
+    (hr : InBlock S i r) (hn : r.name = q) :
+    (qs.foldl (getEnt S) (initState S p)).parsed i = true ∧
+    (qs.foldl (getEnt S) (initState S p)).slot q = some (final S r) ∧
+    ∀ b ∈ r.bases, ∃ j r', InBlock S j r' ∧ r'.name = b ∧
+      (qs.foldl (getEnt S) (initState S p)).parsed j = true := by
+  obtain ⟨h1, h2⟩ := lazy_query_parsed wf p qs hq hr hn
+  exact ⟨h1, h2, ((lazy_slot_spec wf p qs hr).2 h1).2.1⟩
+
+/-- Laziness does not leak: a class whose block has not been parsed still points at its block, a class
+of a parsed block is completely resolved; unknown names never appear; CBaseEntity is never touched. -/
+theorem C16_lazy_state (qs : List Name) {i : Nat} {r : RawEnt} (hr : InBlock S i r) :
+    ((qs.foldl (getEnt S) (initState S p)).parsed i = false →
+        (qs.foldl (getEnt S) (initState S p)).slot r.name = some (.block i)) ∧
+    ((qs.foldl (getEnt S) (initState S p)).parsed i = true →
+        (qs.foldl (getEnt S) (initState S p)).slot r.name = some (final S r)) ∧
+    (qs.foldl (getEnt S) (initState S p)).slot S.cbase = some (.ent ⟨S.cbase, p, .ents []⟩) := by
+  have h := lazy_slot_spec wf p qs hr
+  exact ⟨h.1, fun hp => (h.2 hp).1, lazy_cbase_slot wf p qs⟩
+
+/-- `get_ent` is idempotent: asking again changes nothing at all (state equality). -/
+theorem C16_lazy_idem (qs : List Name) (q : Name) :
+    getEnt S (getEnt S (qs.foldl (getEnt S) (initState S p)) q) q
+      = getEnt S (qs.foldl (getEnt S) (initState S p)) q :=
+  getEnt_idem wf p qs q
+
+/-- Order independence: two query sequences agree on every class both asked for, and on everything
+reachable from it; in particular any permutation of the queries gives the same answers. -/
+theorem C16_lazy_order (qs qs' : List Name) {q n : Name} (hq : q ∈ qs) (hq' : q ∈ qs')
+    (hn : Reach S q n) :
+    (qs.foldl (getEnt S) (initState S p)).slot n = (qs'.foldl (getEnt S) (initState S p)).slot n :=
+  lazy_order_indep wf p qs qs' hq hq' hn
+
+theorem C16_lazy_perm (qs qs' : List Name) (hperm : qs.Perm qs') {q : Name} (hq : q ∈ qs) :
+    (qs.foldl (getEnt S) (initState S p)).slot q = (qs'.foldl (getEnt S) (initState S p)).slot q :=
+  lazy_perm wf p qs qs' hperm hq
+
+/-- `get_fgd` after any lazy queries gives what `get_fgd` gives on the fresh database, and that is a
+function of the file alone: every class resolved, every block parsed. -/
+theorem C16_lazy_full_load (qs : List Name) :
+    (∀ n, (loadAll S (qs.foldl (getEnt S) (initState S p))).slot n = (loadAll S (initState S p)).slot n) ∧
+    (∀ i r, InBlock S i r → (loadAll S (initState S p)).slot r.name = some (final S r)) ∧
+    (∀ i, (loadAll S (initState S p)).parsed i = decide (i < S.blocks.length)) := by
+  have h := loadAll_spec wf p []
+  exact ⟨(loadAll_after_queries wf p qs).1, h.2.1, h.1⟩
+
+end LazyDB
+
+/-- Non-vacuity: a database with an alias chain across blocks and a cycle is well formed. -/
+example : C16.Lazy.WF C16.Lazy.exS := C16.Lazy.exS_wf
 
 end C16
